@@ -145,3 +145,66 @@ pub fn program(ctx: &mut Ctx, internal: bool) -> (String, &'static str) {
         _ => { let q = ctx.pick(&["?m1(X)", "?m2(X, Y)", "?users(A, B, C)"]).to_string(); if ctx.chance(1, 2) { (q, "query") } else { (format!("{q}\n{}", mutating(ctx, internal)), "query-then") } }
     }
 }
+
+/// Systematic product for C27/C29: (session binding) × (explicit KG argument) × (first line kind) ×
+/// (1..3 lines). User `vi`: owner of `kga`, viewer of `default`, no role on `kgb`; `ed`: editor of `kga`.
+/// `op` = "c27.prog" | "c29.prog".
+pub fn product_cases(ctx: &mut Ctx, op: &str) -> Vec<String> {
+    let mut out = vec![];
+    let firsts: [(&str, &str); 7] = [("query", "?m1(X)"), ("query_users", "?users(A, B, C)"), ("insert", "+m1(7)"), ("meta", ".kg list"),
+        ("use", ".kg use kga"), ("use_internal", ".kg use _internal"), ("fact", "m1(4)")];
+    let followers = ["?users(A, B, C)", "?m1(X)", "+users(\"mallory\", \"nohash\", \"admin\")", "+m1(8)", ".kg use _internal", "-m1(0)", ".rel drop m1", "?kg_acls(A, B, C)"];
+    for sess_kg in ["kga", "default", "kgb", "_internal", "-"] {
+        for kgarg in ["-", "kga", "default", "kgb", "_internal"] {
+            for (fname, first) in firsts {
+                for nlines in 1..=3usize {
+                    for who in ["vi", "ed"] {
+                        // thin out deterministically-randomly, keep every (sess, kgarg, first, nlines) for vi
+                        if who == "ed" && !ctx.chance(1, 4) { continue; }
+                        let mut ls = vec![first.to_string()];
+                        for _ in 1..nlines { ls.push(ctx.pick(&followers).to_string()); }
+                        let su = format!("acl=kga:vi:owner,default:vi:viewer,kga:ed:editor,default:ed:viewer/sess={}",
+                            if sess_kg == "-" { "adm:default".to_string() } else { format!("vi:{sess_kg},ed:{sess_kg},adm:default") });
+                        let sess = if sess_kg == "-" { "n" } else { "s" };
+                        ctx.count("product"); ctx.count(&format!("product_sess_{}", if sess_kg == "-" { "none" } else { sess_kg }));
+                        ctx.count(&format!("product_kgarg_{}", if kgarg == "-" { "none" } else { kgarg })); ctx.count(&format!("product_first_{fname}")); ctx.count(&format!("product_lines_{nlines}"));
+                        out.push(format!("{op} {su} {who} {sess} {kgarg} | {}", crate::u::hworld::items_of_prog(&ls.join("\n"))));
+                    }
+                }
+            }
+        }
+    }
+    out
+}
+
+/// C30 shape family: a full-line comment (`//` or `%`) immediately followed by an indented line (blank
+/// lines optionally in between), at every position of a 3–5 statement program; the indented text is
+/// either a broken fragment or the valid continuation of the statement before the comment.
+/// (`strip_comments ∘ join_continuation_lines` and `join_continuation_lines ∘ strip_comments` differ
+/// exactly here.) Returns (program text, shape name).
+pub fn comment_then_indent(ctx: &mut Ctx) -> Vec<(String, &'static str)> {
+    let mut out = vec![];
+    let n = 3 + ctx.below(3);
+    let base: Vec<String> = (0..n).map(|i| match ctx.below(4) { 0 => format!("+m2({}, {})", i + 1, ctx.range(1, 9)), 1 => format!("-m1({})", ctx.range(0, 2)), _ => format!("+m1({})", 10 + i) }).collect();
+    let comment = |ctx: &mut Ctx| ctx.pick(&["// note", "% note", "//", "  // indented note", "%% x", "// +m1(99)"]).to_string();
+    let gap = |ctx: &mut Ctx| -> Vec<String> { match ctx.below(4) { 0 => vec!["".to_string()], 1 => vec!["  ".to_string()], _ => vec![] } };
+    for pos in 1..=n {
+        // (i) broken fragment after the comment; it attaches to statement pos-1
+        let mut ls: Vec<String> = base[..pos].to_vec();
+        ls.push(comment(ctx)); ls.extend(gap(ctx));
+        ls.push(format!("{}{}", ctx.pick(&["   ", "\t", " \t"]), ctx.pick(&["+c(oops", "+m1(", ")) x", ":= 3", "\"open"])));
+        ls.extend(base[pos..].iter().cloned());
+        out.push((ls.join("\n"), "comment-indent-broken"));
+        // (ii) valid continuation: statement pos-1 is split around the comment
+        let (head, tail) = match ctx.below(3) { 0 => (format!("+m2({},", 20 + pos), format!("{})", ctx.range(1, 9))), 1 => ("+v1(X) <-".to_string(), "m1(X)".to_string()), _ => (format!("+m1[({},),", 30 + pos), format!("({},)]", 40 + pos)) };
+        let mut ls: Vec<String> = base[..pos - 1].to_vec();
+        ls.push(head); ls.push(comment(ctx)); ls.extend(gap(ctx));
+        ls.push(format!("{}{}", ctx.pick(&["  ", "\t", "    "]), tail));
+        ls.extend(base[pos..].iter().cloned());
+        out.push((ls.join("\n"), "comment-indent-continuation"));
+    }
+    // comment first, then an indented valid statement (nothing to attach to)
+    let mut ls = vec![comment(ctx), format!("  {}", base[0])]; ls.extend(base[1..].iter().cloned());
+    out.push((ls.join("\n"), "comment-indent-leading"));
+    out
+}
